@@ -2,7 +2,7 @@
 """Regenerates MANIFEST.json from the table below (kept in one place so it stays valid)."""
 import json
 
-REPO_FIXES = ["7e35490", "ecea711", "fc01ecc", "cd27f47", "463d510", "2d5f2e1", "19f78b7", "505b133", "a8ceba4", "52f9b16", "9d2a8be", "5232db2", "9ed931a", "72b95c5", "7d2242b", "bc9cd84", "5cca2dd"]
+REPO_FIXES = ["7e35490", "ecea711", "fc01ecc", "cd27f47", "463d510", "2d5f2e1", "19f78b7", "505b133", "a8ceba4", "52f9b16", "9d2a8be", "5232db2", "9ed931a", "72b95c5", "7d2242b", "bc9cd84", "5cca2dd", "b884f23"]
 TECH = "bounded symbolic execution of the real Python code on z3 real proxies (own engine vf.symx) + SMT (z3; UF abstraction with exact NRA refinement); counterexamples replayed concretely"
 CLAIMED = {
     "C01": ("unit level: every _solv_outp_volt/_solv_inp_curr of the 11 kinds (const / 1-D / 2-D tables, phase modes, off flags, PMux k<=3) "
